@@ -52,6 +52,43 @@ def run_tlc_many(ctx, jobs, threads=4):
         return list(ex.map(one, jobs))
 
 
+_built = {}
+_build_lock = threading.Lock()
+
+
+def build(name):
+    """vlib.build, once per check run (parts of a check run side by side: no rebuild under a running binary)"""
+    with _build_lock:
+        if name not in _built:
+            _built[name] = vlib.build(name)
+        return _built[name]
+
+
+def parallel(ctx, *fns):
+    """Runs the parts of a check side by side (TLC runs, driver runs and trace judgements are separate processes).  The
+    context's counters are guarded by the module lock; an exception of a part is re-raised after all parts have ended."""
+    if not getattr(ctx, '_locked_absorb', False):
+        orig = ctx.absorb
+
+        def absorb(rep):
+            with _lock:
+                orig(rep)
+        ctx.absorb = absorb
+        ctx._locked_absorb = True
+    with ThreadPoolExecutor(max_workers=len(fns)) as ex:
+        futs = [ex.submit(f) for f in fns]
+        res, err = [], None
+        for f in futs:
+            try:
+                res.append(f.result())
+            except Exception as e:      # noqa
+                err = err or e
+                res.append(None)
+    if err is not None:
+        raise err
+    return res
+
+
 def J(family, module, cfg, expect=None, workers=4, timeout=900):
     return dict(family=family, module=module, cfg=cfg, expect=expect, workers=workers, timeout=timeout)
 
@@ -79,9 +116,13 @@ def pipe_model_jobs(thorough, part):
 
 
 def retry_model_jobs(thorough, part):
-    jobs = [J('client', 'Retry', 'MC_quick.cfg', workers=4)]
+    # MC_quick: one command per call, both connection modes; MC_quick_batch: two-command batches and MULTI ... EXEC blocks
+    jobs = [J('client', 'Retry', 'MC_quick.cfg', workers=4), J('client', 'Retry', 'MC_quick_batch.cfg', workers=4)]
     if part == 'c03':
-        jobs += [J('client', 'Retry', 'MC_asis_expiry.cfg', 'AtMostOnceNonRetryable', 2)]
+        jobs += [J('client', 'Retry', 'MC_asis_expiry.cfg', 'AtMostOnceNonRetryable', 2),
+                 J('client', 'Retry', 'MC_neg_batchany.cfg', 'AtMostOnceNonRetryable', 2),
+                 J('client', 'Retry', 'MC_neg_txresend.cfg', 'AtMostOnceNonRetryable', 2),
+                 J('client', 'Retry', 'MC_neg_syncexpired.cfg', 'AtMostOnceNonRetryable', 2)]
     else:
         jobs += [J('client', 'Retry', 'MC_quick_moved.cfg', workers=2),
                  J('client', 'Retry', 'MC_neg_batchsibling.cfg', 'InvWithinPolicy', 2),
@@ -89,7 +130,8 @@ def retry_model_jobs(thorough, part):
                  J('client', 'Retry', 'MC_neg_errreply.cfg', 'PlainRepliesReturnedAsIs', 2),
                  J('client', 'Retry', 'MC_neg_afterctx.cfg', 'NoSpin', 2), J('client', 'Retry', 'MC_neg_afterclose.cfg', 'NoSpin', 2)]
     if thorough:
-        jobs += [J('client', 'Retry', 'MC_thorough.cfg', workers=8, timeout=3000)]
+        jobs += [J('client', 'Retry', 'MC_thorough.cfg', workers=8, timeout=3000),
+                 J('client', 'Retry', 'MC_thorough_batch.cfg', workers=6, timeout=3000)]   # 815 016 states
     return jobs
 
 
@@ -125,8 +167,9 @@ def scratch():
 
 
 # ------------------------------------------------------------------------------------------------- retry scenarios
-def gen_retry_cases(ctx, walks, seed):
-    r = vlib.tlc('client', 'Retry', 'Gen.cfg', workers=1, simulate=walks, depth=16, seed=seed, collect_cases=True, timeout=900)
+def gen_retry_cases(ctx, walks, seed, cfg='Gen.cfg'):
+    """cfg: Gen.cfg = one command per call (all client kinds, both connection modes); Gen_batch.cfg = batches and blocks"""
+    r = vlib.tlc('client', 'Retry', cfg, workers=1, simulate=walks, depth=16, seed=seed, collect_cases=True, timeout=900)
     with _lock:
         ctx.tlc_runs.append(r.summary())
     if r.error or not r.cases:
@@ -147,6 +190,10 @@ def feasible(c):
             return False
         if st['o'].startswith('expired') and c['kind'] == 'clusterbatch':
             return False
+        if st['o'] == 'expired-unsent' and c.get('shape', 'one') != 'one':
+            return False
+        if st['ctx'] and st['o'] != 'ctxdone' and c.get('shape', 'one') == 'tx':
+            return False
         if st['sib'] and i > 0 and not sc[i - 1]['sib']:
             return False
         if st['sib'] and (st['o'].startswith('cut-') or st['o'].startswith('expired')):
@@ -162,7 +209,8 @@ def select_retry_cases(cases, n, seed, classes=None):
     strata = {}
     for c in cases:
         shape = tuple((s['o'], s['v'] != 'none' and s['v'] or '', s['sib'], s['soon'], s['ctx']) for s in c['script'])
-        strata.setdefault((c['kind'], c['class'], shape[0], len(shape) > 1 and shape[1][0] or ''), []).append(c)
+        strata.setdefault((c['kind'], c['class'], c.get('shape', 'one'), c.get('pclass', ''), c.get('path', ''), shape[0],
+                           len(shape) > 1 and shape[1][0] or ''), []).append(c)
     keys = sorted(strata.keys(), key=lambda k: (str(k)))
     rng.shuffle(keys)
     # slow scenarios (connection expiry, >= 1.5 s each) are capped so that the tier budget holds
@@ -187,12 +235,49 @@ def select_retry_cases(cases, n, seed, classes=None):
     return out
 
 
+def first_outcome(c):
+    return c['script'][0]['o'] if c['script'] else ''
+
+
+def select_by_strata(cases, key, n, seed, per=1):
+    """One scenario (per) of every stratum key(c) (None: not wanted), strata in the order of their keys' first component
+    (a priority), at most n in total.  Returns (selection, number of strata)."""
+    rng = random.Random(seed)
+    cs = [c for c in cases if feasible(c)]
+    rng.shuffle(cs)
+    strata = {}
+    for c in cs:
+        k = key(c)
+        if k is not None:
+            strata.setdefault(k, []).append(c)
+    out = []
+    for k in sorted(strata.keys(), key=lambda k: (k[0], rng.random())):
+        for c in strata[k][:per]:
+            if len(out) < n:
+                out.append(c)
+    return out, len(strata)
+
+
+def has_plain(c):
+    return c['class'] == 'plain' or (c.get('shape', 'one') != 'one' and c.get('pclass') == 'plain' and
+                                     (c['shape'] == 'tx' or c['kind'] != 'clusterbatch'))
+
+
+def mixed(c):
+    """a batch whose members differ in retry-safety (the interesting ones for whole-batch re-sends)"""
+    return c.get('shape', 'one') != 'one' and ((c['class'] == 'plain') != (c.get('pclass') == 'plain'))
+
+
 def _retry_name(c):
     n = '%s/%s' % (c['kind'], c['class'])
     if c['disable']:
         n += '/noretry'
     if c['ctxKind'] != 'none':
         n += '/' + c['ctxKind']
+    if c.get('shape', 'one') != 'one':
+        n += '/%s:%s' % (c['shape'], c['pclass'])
+    if c.get('path') == 'pipelined':
+        n += '/pipelined'
     for st in c['script']:
         n += ' ' + st['o']
         if st['v'] != 'none':
@@ -208,12 +293,23 @@ def _retry_name(c):
     return n
 
 
+def _where(v, outcome):
+    """Qualifies a signature: the connection mode matters for what a lifetime expiry under a request in flight means
+    (pipelined: errConnExpired, the known finding #10; synchronous path: an I/O error), the shape of the call for batches."""
+    s = ''
+    if str(outcome).startswith('expired'):
+        s += ' path=%s' % v.get('path', 'none')
+    if v.get('shape', 'one') not in ('one', ''):
+        s += ' batch=%s:%s' % (v['shape'], v.get('mix', ''))
+    return s
+
+
 def retry_signature(v):
     what = v['what']
     if what == 'exec-twice':
-        return 'exec-twice kind=%s class=%s cause=%s' % (v['kind'], v['class'], v['cause'])
+        return 'exec-twice kind=%s class=%s cause=%s' % (v['kind'], v['class'], v['cause']) + _where(v, v['cause'])
     if what.startswith('resend-not-permitted'):
-        s = '%s kind=%s class=%s prev=%s verdict=%s' % (what, v['kind'], v['class'], v['prev'], v['verdict'])
+        s = '%s kind=%s class=%s prev=%s verdict=%s' % (what, v['kind'], v['class'], v['prev'], v['verdict']) + _where(v, v['prev'])
         if v.get('disable'):
             s += ' disableretry'
         if v.get('detail'):
@@ -222,8 +318,8 @@ def retry_signature(v):
     if what == 'retry-spin-after-ctx-or-close':
         return '%s kind=%s class=%s after=%s' % (what, v['kind'], v['class'], v['detail'])
     if what == 'result-not-as-replied':
-        return '%s kind=%s class=%s last=%s returned=%s' % (what, v['kind'], v['class'], v['prev'], v['detail'])
-    return '%s kind=%s class=%s' % (what, v['kind'], v['class'])
+        return '%s kind=%s class=%s last=%s returned=%s' % (what, v['kind'], v['class'], v['prev'], v['detail']) + _where(v, '')
+    return '%s kind=%s class=%s' % (what, v['kind'], v['class']) + _where(v, '')
 
 
 C03_WHATS = ('exec-twice',)
@@ -232,7 +328,7 @@ C05_RETRY_WHATS = ('retry-spin-after-ctx-or-close', 'call-did-not-return')
 
 def run_retry_scenarios(ctx, cases, par=12):
     """Returns (verdicts, report). Divergences from the specification's prediction are re-run once before they count."""
-    binp = vlib.build('faultdrv')
+    binp = build('faultdrv')
     d = scratch()
     try:
         cp, tp = os.path.join(d, 'cases.ndjson'), os.path.join(d, 'retry-trace.ndjson')
@@ -315,7 +411,7 @@ def select_fault_cases(cases, n, seed, faults=None, always=None):
     for c in cs:
         if always and always(c):
             continue
-        strata.setdefault((c['fault'], tuple(sorted(c['pend']))), []).append(c)
+        strata.setdefault((c['fault'], tuple(sorted(c['pend'])), _fault_opts(c)), []).append(c)
     keys = sorted(strata.keys(), key=str)
     rng.shuffle(keys)
     i = 0
@@ -331,14 +427,40 @@ def select_fault_cases(cases, n, seed, faults=None, always=None):
     return out
 
 
+NEW_WAITING_KINDS = ('poolwait', 'backoff', 'backoffm', 'hsblock', 'hsredial', 'hspool')
+
+
+def select_ctx_cases(cases, n, seed, allow=None, always=None):
+    """C05: first a cover of every (waiting call kind, context kind, pipelined?) combination the scenario space has, then more by
+    strata.  allow(c) restricts the space (the waiting places that do not depend on the queue implementation run once)."""
+    rng = random.Random(seed)
+    cs = [c for c in cases if allow is None or allow(c)]
+    rng.shuffle(cs)
+    cs.sort(key=lambda c: len(c['pend']))          # small scenarios first: a finding names one call
+    out, covered = [], set()
+    for c in cs:
+        if always and always(c):
+            out.append(c)
+            covered |= set((k, c['ctx'].get(k, 'none'), c['pipe']) for k in c['pend'])
+    for c in cs:
+        combos = set((k, c['ctx'].get(k, 'none'), c['pipe']) for k in c['pend'] if c['ctx'].get(k, 'none') != 'none')
+        if combos - covered:
+            out.append(c)
+            covered |= combos
+    have = set(id(c) for c in out)
+    rest = [c for c in select_fault_cases(cs, n, seed) if id(c) not in have]
+    return out + rest[:max(0, n - len(out))]
+
+
 def fault_signature(v):
     what = v['what']
+    opts = (' ' + v['opts']) if v.get('opts') else ''      # further ingredients of the scenario (push, traffic, resp2)
     if what in ('ctx-hang', 'ctx-not-prompt'):
-        return '%s queue=%s callkind=%s ctx=%s waiting=%s' % (what, v['queue'], v['callkind'], v['ctx'], v['waiting'])
+        return '%s queue=%s callkind=%s ctx=%s waiting=%s' % (what, v['queue'], v['callkind'], v['ctx'], v['waiting']) + opts
     if what == 'after-close-error-not-ErrClosing':
         got = v['detail'].split(':')[0]
-        return '%s fault=%s got=%s' % (what, v['fault'], got)
-    return '%s fault=%s callkind=%s queue=%s' % (what, v['fault'], v['callkind'], v['queue'])
+        return '%s fault=%s got=%s' % (what, v['fault'], got) + opts
+    return '%s fault=%s callkind=%s queue=%s' % (what, v['fault'], v['callkind'], v['queue']) + opts
 
 
 C05_FAULT_WHATS = ('ctx-hang', 'ctx-not-prompt', 'sent-with-done-context', 'done-context-not-reported')
@@ -361,7 +483,7 @@ def _drive_fault(ctx, binp, cases, queue, d, tag, par, absorb=True):
 
 def run_fault_scenarios(ctx, cases, queue='ring', par=16):
     """Returns verdicts; timing-dependent ones (hangs, lateness) must reproduce when their scenario is run again alone."""
-    binp = vlib.build('faultdrv')
+    binp = build('faultdrv')
     d = scratch()
     try:
         verdicts = _drive_fault(ctx, binp, cases, queue, d, 'a', par)
@@ -408,7 +530,20 @@ def _fault_name(c):
         n += ' warm'
     if c['small']:
         n += ' small-queue'
+    if _fault_opts(c):
+        n += ' ' + _fault_opts(c)
     return n
+
+
+def _fault_opts(c):
+    parts = []
+    if c.get('push', 'none') not in ('none', ''):
+        parts.append('push=' + c['push'])
+    if c.get('traffic'):
+        parts.append('traffic')
+    if c.get('resp2'):
+        parts.append('resp2')
+    return ' '.join(parts)
 
 
 def report_fault_verdicts(ctx, verdicts, want, cases=()):
@@ -440,7 +575,7 @@ def entry_race(ctx, rounds=2):
     if r.violated != 'NoHang' or not sched:
         ctx.inconclusive.append('could not obtain the entry-race counterexample from TLC (violated=%s)' % r.violated)
         sched = ''
-    binp = vlib.build('faultdrv')
+    binp = build('faultdrv')
     args = ['-mode', 'entryrace', '-rounds', str(rounds)]
     if sched:
         args += ['-schedule', sched]
@@ -456,7 +591,7 @@ def replay(ctx, want_retry, want_fault):
     sc = v.get('scenario')
     if not sc:
         if 'schedule' in (rec.get('replay') or {}):
-            binp = vlib.build('faultdrv')
+            binp = build('faultdrv')
             ctx.run_driver(binp, ['-mode', 'entryrace', '-rounds', '1', '-schedule', rec['replay']['schedule']], timeout=600)
             return
         raise vlib.Inconclusive('the replay file carries no scenario')
